@@ -44,9 +44,10 @@ const (
 	mTxnDeleteMany
 	mSetMany // a chain of Map.Set calls over a run of keys (a prefix key first or in between)
 	sSetMany
+	mTxnLoopWrite // range over MapTxn.All/Prefix/LowerBound while writing through the same MapTxn
 )
 
-var msNames = []string{"map.Set", "map.Delete", "map.Read", "FromMap", "txn.Begin", "txn.Set", "txn.Delete", "txn.Read", "txn.Commit", "txn.Drop", "map.Equal", "map.RoundTrip", "set.New", "set.Set", "set.Delete", "set.Read", "set.Union", "set.Difference", "set.Equal", "set.RoundTrip", "map.DeleteMany", "set.DeleteMany", "txn.DeleteMany", "map.SetMany", "set.SetMany"}
+var msNames = []string{"map.Set", "map.Delete", "map.Read", "FromMap", "txn.Begin", "txn.Set", "txn.Delete", "txn.Read", "txn.Commit", "txn.Drop", "map.Equal", "map.RoundTrip", "set.New", "set.Set", "set.Delete", "set.Read", "set.Union", "set.Difference", "set.Equal", "set.RoundTrip", "map.DeleteMany", "set.DeleteMany", "txn.DeleteMany", "map.SetMany", "set.SetMany", "txn.LoopWrite"}
 
 type MSOp struct {
 	K    int      `json:"k"`
@@ -472,6 +473,39 @@ func runMapSet(c MSCase) (res msResult) {
 				}
 			}
 			sets = append(sets, &setMember{ns, w, fmt.Sprintf("Set delete chain %q at step %d", o.Keys, step)})
+		case mTxnLoopWrite:
+			if len(txns) > 0 {
+				// the sequence is a snapshot of the transaction at the moment it was
+				// obtained: deleting (or setting) keys from inside the loop does not
+				// change what the loop visits
+				t := txns[o.B%len(txns)]
+				all := sortedMap(t.want)
+				var want []skv
+				var seq func(func(string, mval) bool)
+				switch o.Val % 3 {
+				case 0:
+					seq, want = t.txn.All(), all
+				case 1:
+					seq, want = t.txn.Prefix(o.Key), filterSKV(all, func(k string) bool { return strings.HasPrefix(k, o.Key) })
+				default:
+					seq, want = t.txn.LowerBound(o.Key), filterSKV(all, func(k string) bool { return k >= o.Key })
+				}
+				var got []skv
+				seq(func(k string, v mval) bool {
+					got = append(got, skv{k, v.N})
+					if o.A%2 == 0 {
+						t.txn.Delete(k)
+						delete(t.want, k)
+					} else {
+						t.txn.Set(k+"!", mv(o.Val))
+						t.want[k+"!"] = o.Val
+					}
+					return true
+				})
+				if !eqSKV(got, want) {
+					err = fail("maptxn", fmt.Errorf("a loop over MapTxn sequence kind %d (key %q) that writes through the transaction visited %v, the transaction held %v when the sequence was obtained", o.Val%3, o.Key, got, want))
+				}
+			}
 		case mTxnDeleteMany:
 			if len(txns) > 0 {
 				t := txns[o.B%len(txns)]
@@ -740,7 +774,7 @@ var wideKeys = func() []string {
 func genMSCase(t *rapid.T) MSCase {
 	key := rapid.SampledFrom(msKeys)
 	maxKeys := 4
-	kinds := []int{mSet, mSet, mSet, mDelete, mDelete, mRead, mFromMap, mFromMap, mTxnBegin, mTxnSet, mTxnSet, mTxnDelete, mTxnRead, mTxnCommit, mTxnCommit, mTxnDrop, mEqual, mRoundTrip,
+	kinds := []int{mSet, mSet, mSet, mDelete, mDelete, mRead, mFromMap, mFromMap, mTxnBegin, mTxnSet, mTxnSet, mTxnDelete, mTxnRead, mTxnCommit, mTxnCommit, mTxnDrop, mEqual, mRoundTrip, mTxnLoopWrite,
 		sNew, sSet, sSet, sDelete, sRead, sUnion, sDifference, sEqual, sRoundTrip}
 	if rapid.IntRange(0, 2).Draw(t, "wide") == 0 {
 		key = rapid.OneOf(rapid.SampledFrom(msKeys), rapid.SampledFrom(wideKeys), rapid.SampledFrom(wideKeys))
